@@ -102,6 +102,12 @@ func valid(ops []Op) bool {
 				return false
 			}
 			ni++
+		case "SafeIt", "SafeItFrom":
+			if o.T >= nt {
+				return false
+			}
+			nt++
+			ni++
 		case "ItClone":
 			if o.T >= ni {
 				return false
@@ -126,7 +132,7 @@ func propCheck(ops []Op) (fail string, at int) {
 		}
 	}()
 	outs := []Out{}
-	trees := []*ad.AvlTree{ad.NewAvlTree()}
+	trees := newWorld()
 	sets := []map[int64]bool{{}}
 	var iters []*ad.AvlIterator
 	var rits []refIter
@@ -172,13 +178,24 @@ func propCheck(ops []Op) (fail string, at int) {
 				c[k] = true
 			}
 			sets = append(sets, c)
-		case "ItBegin", "ItFrom":
+		case "ItBegin", "ItFrom", "SafeIt", "SafeItFrom":
 			lo := int64(math.MinInt64)
-			if o.Op == "ItFrom" {
+			if o.Op == "ItFrom" || o.Op == "SafeItFrom" {
 				lo = o.I
 			}
 			v, ok := minGE(sets[o.T], lo)
-			rits = append(rits, refIter{o.T, !ok, v})
+			on := o.T
+			if o.Op == "SafeIt" || o.Op == "SafeItFrom" {
+				// a Safe iterator walks a snapshot: a set of its own that later mutations of the
+				// source do not reach
+				c := map[int64]bool{}
+				for k := range sets[o.T] {
+					c[k] = true
+				}
+				sets = append(sets, c)
+				on = len(sets) - 1
+			}
+			rits = append(rits, refIter{on, !ok, v})
 			if one.F != ok || (ok && one.V != v) {
 				return fmt.Sprintf("%s(%d) positioned at (%v,%d), expected (%v,%d)", o.Op, o.I, one.F, one.V, ok, v), idx
 			}
@@ -206,12 +223,43 @@ func propCheck(ops []Op) (fail string, at int) {
 				return fmt.Sprintf("iteration %v differs from sorted set %v", one.L, ks), idx
 			}
 		}
-		if o.Op == "Ins" || o.Op == "Del" || o.Op == "Clone" {
+		if o.Op == "Ins" || o.Op == "Del" || o.Op == "Clone" || o.Op == "SafeIt" || o.Op == "SafeItFrom" {
 			t := trees[o.T]
-			if o.Op == "Clone" {
+			st := sets[o.T]
+			if o.Op != "Ins" && o.Op != "Del" {
 				t = trees[len(trees)-1]
+				st = sets[len(sets)-1]
 			}
 			msg := ""
+			// root accessors against the set: Emtpy iff empty; Value is a key; Left / Right split the rest
+			if t.Emtpy() != (len(st) == 0) {
+				msg = fmt.Sprintf("Emtpy() = %v on a set of %d keys", t.Emtpy(), len(st))
+			} else if !t.Emtpy() {
+				v := int64(t.Value())
+				l, r := t.Left(), t.Right()
+				nl, nr := 0, 0
+				// (walked through the child links: an Iterator() on these views would climb out
+				// of the subtree through the Parent link of its root)
+				budget := walkGuard
+				preorder(l.Root, func(n *ad.AvlNode) {
+					if int64(n.Value) >= v || !st[int64(n.Value)] {
+						msg = "Left() holds a key that is not a smaller key of the set"
+					}
+					nl++
+				}, &budget)
+				preorder(r.Root, func(n *ad.AvlNode) {
+					if int64(n.Value) <= v || !st[int64(n.Value)] {
+						msg = "Right() holds a key that is not a larger key of the set"
+					}
+					nr++
+				}, &budget)
+				if !st[v] || nl+nr+1 != len(st) {
+					msg = "Value() / Left() / Right() do not partition the set"
+				}
+			}
+			if msg != "" {
+				return "after " + o.Op + fmt.Sprintf("(%d): ", o.I) + msg, idx
+			}
 			if t.Root != nil && t.Root.Parent != nil {
 				msg = "root has a parent"
 			}
@@ -298,9 +346,10 @@ func (h *heapOracle) check(o Op, trees []*ad.AvlTree) string {
 	switch o.Op {
 	case "Ins", "Del":
 		mutated = o.T
-	case "Clone":
+	case "Clone", "SafeIt", "SafeItFrom":
 		mutated = len(trees) - 1
 	}
+	isClone := o.Op == "Clone" || o.Op == "SafeIt" || o.Op == "SafeItFrom"
 	reach := make([]map[*ad.AvlNode]bool, len(trees))
 	for j, t := range trees {
 		reach[j] = map[*ad.AvlNode]bool{}
@@ -316,7 +365,7 @@ func (h *heapOracle) check(o Op, trees []*ad.AvlTree) string {
 				if r != j && msg == "" {
 					msg = fmt.Sprintf("node %d: object shared between trees %d and %d", n.Value, r, j)
 				}
-				if o.Op == "Clone" && j == mutated && msg == "" {
+				if isClone && j == mutated && msg == "" {
 					msg = fmt.Sprintf("node %d: Clone reused an existing node object", n.Value)
 				}
 			} else {
@@ -331,7 +380,7 @@ func (h *heapOracle) check(o Op, trees []*ad.AvlTree) string {
 		if msg != "" {
 			return msg
 		}
-		if fresh > 0 && !(j == mutated && (o.Op == "Clone" || (o.Op == "Ins" && fresh == 1))) {
+		if fresh > 0 && !(j == mutated && (isClone || (o.Op == "Ins" && fresh == 1))) {
 			return fmt.Sprintf("tree %d: %d unexpected new node objects after %s", j, fresh, o.Op)
 		}
 		for _, n := range h.order {
